@@ -68,7 +68,7 @@ def exact_clean(ctx, rec, variant):
     field = GROUP_FIELDS[variant % 3]
     keep_greater = (variant // 3) % 2 == 0
     metric = "score" if (variant // 6) % 2 == 0 else "geom1"
-    gmap = {1: rng.choice([1, 3, 12]), 2: rng.choice([2, 5, 40])}
+    gmap = {1: rng.choice([1, 3, 12, 0]), 2: rng.choice([2, 5, 40])}      # 0 is a group number like any other
     if variant % 5 == 0:
         gmap = {1: 240115, 2: 240116}           # large consecutive group ids
     groups = [gmap[g] for g in rec["grp"]]
@@ -114,7 +114,8 @@ def exact_peaks(ctx, rec, variant):
                      for _ in range(shape[0])], dtype=float)
     case = {"kind": "exact_peaks", "rec": rec, "variant": variant}
     sig = {"op": "scores_extract_particles", "layer": "L2"}
-    out, err = core.call_guarded(tmana.scores_extract_particles, scores, amap, alist, 3, math.sqrt(rec["d2"]),
+    tomo = [3, 0, 240115][(variant // 2) % 3]
+    out, err = core.call_guarded(tmana.scores_extract_particles, scores, amap, alist, tomo, math.sqrt(rec["d2"]),
                                  scores_threshold=thr, angles_numbering=numbering)
     ctx.ran(case)
     if err is not None:
@@ -134,7 +135,7 @@ def exact_peaks(ctx, rec, variant):
         if max(abs(r["phi"] - row[0]), abs(r["theta"] - row[1]), abs(r["psi"] - row[2])) > 1e-9:
             ctx.fail("C07_PeakPayload", "angles (%r,%r,%r) at voxel %s, list row is %s" % (
                 r["phi"], r["theta"], r["psi"], v, row.tolist()), case, sig)
-        if int(r["tomo_id"]) != 3:
+        if int(r["tomo_id"]) != tomo:
             ctx.fail("C07_PeakPayload", "tomo_id %r" % r["tomo_id"], case, sig)
 
 
@@ -168,7 +169,7 @@ def gen_clean_case(rng, idx, nmax):
         base = rng.choice([100000, 240115, 999998, 1000000])      # date-coded / running ids: large and consecutive
         gvals = [base + i for i in range(ngroups)]
     else:
-        gvals = rng.sample([1, 2, 3, 5, 8, 13, 21], ngroups)
+        gvals = rng.sample([0, 1, 2, 3, 5, 8, 13, 21], ngroups)
     groups = [rng.choice(gvals) for _ in range(n)]
     return {"kind": "clean", "id": idx, "pos": pos, "scores": scores, "groups": groups, "d": round(d, 4),
             "field": rng.choice(GROUP_FIELDS), "keep_greater": rng.random() < 0.5,
